@@ -141,7 +141,10 @@ Judge(t) ==
 SetupAfterClosed(t, h) ==
     \E n \in 1..Len(t.conns) : /\ t.conns[n].h = h
                                /\ \E i, j \in 1..Len(t.conns[n].evs) : i < j /\ t.conns[n].evs[i].k = "closed" /\ t.conns[n].evs[j].k = "setup"
-KfOf(t, k) == IF k[1] = "C11" /\ k[2] = "last-word-setup-although-nothing-registered" /\ SetupAfterClosed(t, k[3])
+\* (the same history has a C01 face when the close came from the user taking his word back: the set-up follows the Cancel)
+KfOf(t, k) == IF /\ \/ (k[1] = "C11" /\ k[2] = "last-word-setup-although-nothing-registered")
+                    \/ (k[1] = "C01" /\ k[2] = "device-set-up-after-the-user-took-his-word-back")
+                 /\ SetupAfterClosed(t, k[3])
               THEN {"setup-after-closed"} ELSE {}
 Init == l = 0
 Next == /\ l < Len(Trace)
